@@ -235,7 +235,20 @@ pub fn gen_desc(rng: &mut Rng) -> Desc {
                     }
                     _ => {
                         lossy = true;
-                        data.extend(chunk(b"ALPH", &rng.bytes(4)));
+                        // alpha data is arbitrary bytes: it may spell a chunk header, e.g. an
+                        // uncompressed vertically filtered plane (info byte 0x58 = 'X') whose
+                        // first values are 'M','P',' ' (regression of /repo a1f51e1)
+                        let alph = if rng.chance(1, 3) {
+                            let mut a = rng.pick(&[*b"XMP ", *b"EXIF", *b"ICCP", *b"VP8L", *b"ANIM"]).to_vec();
+                            let n = rng.below(6) as u32;
+                            a.extend_from_slice(&n.to_le_bytes());
+                            let extra = rng.below(5) as usize;
+                            a.extend(rng.bytes(n as usize + extra));
+                            a
+                        } else {
+                            rng.bytes(4)
+                        };
+                        data.extend(chunk(b"ALPH", &alph));
                         data.extend(chunk(b"VP8 ", &vp8_header_payload(rng, fw, fh)));
                     }
                 }
